@@ -93,39 +93,43 @@ def check_handwritten_serde(ctx, P, rule="E9.handserde"):
 
 
 def check_enum_key_wrapper(ctx, P, rule="E9.keywrapper"):
-    """SecretKeyEnum: each variant is written with its own curve tag and read back into the same variant."""
-    from .common import scheme_context
-    from ..core import guards as G
+    """SecretKeyEnum: each variant is written with its own curve tag and read back into the same variant.
+    Decided on the variant-specialised evaluation (the shape of the match / helper / combinator does not matter)."""
+    from . import spec as SP
 
     for fk in ("<Vec<u8> as From<&SecretKeyEnum>>::from", "SecretKeyEnum::to_be_bytes", "SecretKeyEnum::to_le_bytes", "<SecretKeyEnum as Serialize>::serialize"):
         f = ctx.need_fn(rule, fk, P)
         if f is None:
             continue
-        ev = evaluate(f)
         n = 0
-        for b in sorted(f.cfg.reachable):
-            for st in f.blocks[b]["stmts"]:
-                if st["k"] == "assign" and "agg" in st["rv"] and st["rv"]["agg"].get("adt") == "Bls12381":
-                    tagv = st["rv"]["agg"]["variant"]
-                    conds = [G.variant_of_switch(P, f, e[0], e[1]) for e in G.edge_conditions(ev, b)]
-                    arms = [c[1] for c in conds if c and c[0] == "SecretKeyEnum"]
-                    n += 1
-                    ctx.ob(rule, "%s/%s" % (fk, tagv), arms == [tagv], "variant %s is written with curve tag Bls12381::%s" % (arms, tagv), where=where(f, b))
-        ctx.ob(rule + ".anchor", fk, n == 2, "%d curve-tag constructions in %s" % (n, fk), where=where(f))
+        for assume in SP.assumptions(P, f, ["SecretKeyEnum"]):
+            V = SP.variant_of(assume)
+            if not assume or V is None:
+                continue
+            ev = evaluate(f, assume)
+            terms = [ev.ret] + [a for _, s_ in sorted(ev.sites.items()) for a in s_.args]
+            tags = set()
+            for t in terms:
+                t = SP.spec_inline(P, ev, t, 2)
+                tags |= set(SP.built_variants(t, "Bls12381"))
+                # or: the whole value handed to a sibling writer that is itself checked
+                for x in subterms(t):
+                    if x.op == "call" and B.cname(x) in ("SecretKeyEnum::to_be_bytes", "SecretKeyEnum::to_le_bytes", "<Vec<u8> as From<&SecretKeyEnum>>::from") and B.cname(x) != fk:
+                        tags.add(V)
+            n += 1
+            ctx.ob(rule, "%s/%s" % (fk, V), sorted(tags) == [V], "variant %s is written with curve tag Bls12381::%s" % (V, "/".join(sorted(tags)) or "<none>"), where=where(f))
+        if n == 0:
+            # no dispatch of its own: the whole value is handed to a sibling writer (which is checked above / below)
+            r = strip_sites(evaluate(f).ret)
+            sib = [x for x in subterms(r) if x.op == "call" and B.cname(x) in ("SecretKeyEnum::to_be_bytes", "SecretKeyEnum::to_le_bytes", "<Vec<u8> as From<&SecretKeyEnum>>::from") and B.cname(x) != fk]
+            whole = [x for x in sib if x.a[1] and B.peel(x.a[1][0]).op == "param"]
+            if whole:
+                ctx.ob(rule, "%s/delegates" % fk, True, "%s hands the whole value to %s" % (fk, B.cname(whole[0])), where=where(f))
+                n = 2
+        ctx.ob(rule + ".anchor", fk, n == 2, "%d variants of SecretKeyEnum written by %s" % (n, fk), where=where(f))
     for fk in ("<SecretKeyEnum as TryFrom<&[u8]>>::try_from", "SecretKeyEnum::from_be_bytes", "SecretKeyEnum::from_le_bytes", "<<SecretKeyEnum as Deserialize<'de>>::deserialize::SecretKeyEnumVisitor as Visitor<'de>>::visit_seq"):
         f = ctx.need_fn(rule, fk, P)
         if f is None:
             continue
-        ev = evaluate(f)
-        n = 0
-        for b in sorted(f.cfg.reachable):
-            for st in f.blocks[b]["stmts"]:
-                if st["k"] == "assign" and "agg" in st["rv"] and st["rv"]["agg"].get("adt") == "SecretKeyEnum":
-                    var = st["rv"]["agg"]["variant"]
-                    conds = [G.variant_of_switch(P, f, e[0], e[1]) for e in G.edge_conditions(ev, b)]
-                    arms = [c[1] for c in conds if c and c[0] == "Bls12381"]
-                    if not arms:
-                        continue  # Self::default() on error paths
-                    n += 1
-                    ctx.ob(rule, "%s/%s" % (fk, var), arms[-1:] == [var], "curve tag %s is read into variant SecretKeyEnum::%s" % (arms, var), where=where(f, b))
-        ctx.ob(rule + ".anchor", fk, n >= 2, "%d tagged constructions in %s" % (n, fk), where=where(f))
+        n = SP.check_reader_totality(ctx, rule, P, f, "SecretKeyEnum", ["Bls12381"], allow_default=True)
+        ctx.ob(rule + ".anchor", fk, n >= 2, "%d curve tags read by %s" % (n, fk), where=where(f))
